@@ -2,6 +2,7 @@ import Octo.Lemmas.TyTypeOf
 import Octo.Lemmas.TyNonNull
 import Octo.Lemmas.TyInter
 import Octo.Lemmas.TyRecFree
+import Octo.Lemmas.TyTypeOfWf
 import Octo.Gen.C10Consts
 /-!
 # C10 — Type algebra laws hold
@@ -169,6 +170,17 @@ theorem typeOf_conforms (v : Value) (hok : v.typeOfShapeOk = true) (t : Ty) (ht 
 theorem typeOf_conforms_recfree (v : Value) (hv : v.noRecV = true) (t : Ty) (ht : v.typeOf = some t) :
     conforms t v = true :=
   typeOf_conforms v (typeOf_recFree_aux v.size v (Nat.le_refl _) hv t ht).1 t ht
+
+/-- the type a value reports is well formed (i.e. inside the domain of the binary laws) when no struct value
+    inside has two or more fields -/
+theorem typeOf_wf (v : Value) (hv : v.narrowStructs = true) (t : Ty) (ht : v.typeOf = some t) : wf t = true :=
+  typeOf_wf_aux v.size v (Nat.le_refl _) hv t ht
+
+/-- … and a struct value with two fields is reported with the field name `""` twice, which is not well formed
+    (struct values carry no names; same root cause as finding `typeof-list-shape-mismatch`) -/
+theorem typeOf_wide_struct_not_wf :
+    (Value.struct [.int 5, .str [120]]).typeOf = some (.struct [[], []] [.int, .str]) ∧
+    wf (.struct [[], []] [.int, .str]) = false := ⟨rfl, by decide⟩
 
 /-! ## The full-strength statement -/
 
